@@ -38,11 +38,9 @@ ASSUMPTIONS = [
     "completeness of rdflib's canonical labelling is proved only up to ORDER: label independence of the whole modelled algorithm "
     "(C14_label_independent_partial); independence of the order of triples / set iteration is NOT proved (and false of the code at "
     "79109fff, finding FC14c) - C14_complete_statement stays a Definition; the differential runs against iso_dec are the evidence",
-    "blank nodes in predicate position (generalised RDF, finding FC14a: the canonicaliser is label-dependent) are generated in "
-    "about 5% of the iso/canon cases (single-triple and multi-triple families); for ISOMORPHIC such pairs (the trigger of FC14a) "
-    "rdflib's verdict depends on the order of SHA-256 values (whether _refine reaches a discrete colouring before it looks at the "
-    "leaking triple), so the expected observation is marked 'verdicts not determined' and only rdflib's own answer is judged by the "
-    "checker; non-isomorphic pairs must still be answered False",
+    "blank nodes in predicate position (generalised RDF; former finding FC14a, fixed by 07e5253f) are generated in about 5% of the "
+    "iso/canon cases as ordinary cases; their second skolem round trip keeps the default basepath (Graph.skolemize leaves predicates "
+    "alone, so through the external branch a node that is predicate and subject/object comes back as two nodes - outside RDF)",
     "graphs have at most 8 blank nodes (iso_dec by vm_compute; rdflib per-case timeout 20 s)",
     "skolem round trip: blank-node ids contain none of '/', '?', '#', ';', are not '.'/'..', no control characters or spaces; "
     "no IRI (or subject literal) of the graph has a path starting with /.well-known/genid/ (hypotheses of C14_skolem_roundtrip, "
@@ -69,7 +67,21 @@ CONSTS = [
     Literal("x", lang="en"),   # 8
     Literal("x"),              # 9
     URIRef("http://e/c"),      # 10
-]
+    # terms that SPELL the same as another term of a different kind / tag / datatype (str(t) equal, n3() different)
+    Literal("x", lang="fr"),                                            # 11  ~ 8, 9
+    Literal("http://e/a"),                                              # 12  ~ 1
+    Literal("0"),                                                       # 13  ~ 6 (Literal(0) = "0"^^xsd:integer)
+    Literal("false"),                                                   # 14  ~ 7
+    URIRef("x"),                                                        # 15  ~ 8, 9, 11
+    Literal("http://e/p"),                                              # 16  ~ 3
+] + [URIRef("urn:p%d" % i) for i in range(40)] + [URIRef("urn:U0"), URIRef("urn:U1"), URIRef("urn:type")]
+# 17..56 = urn:p0..urn:p39 (a wider predicate vocabulary: which colour _refine pops first depends on the hash values),
+# 57, 58 = two classes, 59 = the typing predicate
+SPELL_TWINS = {1: [12], 12: [1], 3: [16], 6: [13], 13: [6], 7: [14], 14: [7], 8: [9, 11, 15], 9: [8, 11, 15], 11: [8, 9, 15],
+               15: [8, 9, 11]}
+TWIN_PAIRS = [(c, t) for c in sorted(SPELL_TWINS) for t in SPELL_TWINS[c]]
+PWIDE = list(range(17, 57))
+U0, U1, TYPE = 57, 58, 59
 CONST_ID = {tkey(t): i + 1 for i, t in enumerate(CONSTS)}
 P, Q = 3, 4
 ERR_GRAPH = [[[0, 997], [0, 997], [0, 997]]]
@@ -184,8 +196,21 @@ def structures(rng):
 def blank_only(rng):
     """random blank-only digraphs on 4-7 nodes and the shapes on which the unrepaired canonicaliser was label dependent
     (finding FC14b, fixed): cycles with self-loops, unequal unions of cycles, looped stars, cycles with in-leaves"""
-    k = rng.choice(["functional", "random", "cycloops", "cycunion", "loopstars", "inleaves", "edited"])
+    k = rng.choice(["functional", "random", "cycloops", "cycunion", "loopstars", "inleaves", "edited", "typed", "typed"])
     n = rng.choice([4, 5, 6, 7])
+    if k == "typed":
+        # nodes typed with two classes, a few edges between the classes over ONE predicate taken from a wide vocabulary:
+        # structurally different nodes that colour refinement has to keep apart (w0 w1 w2 : U0; x y : U1; x p w1, x p w2, y p w0)
+        a, b = rng.choice([(3, 2), (3, 2), (2, 2), (3, 3), (4, 2)])
+        p = rng.choice(PWIDE)
+        es = [(i, TYPE, ("c", U0)) for i in range(a)] + [(a + j, TYPE, ("c", U1)) for j in range(b)]
+        if (a, b) == (3, 2) and rng.random() < 0.5:
+            es += [(3, p, 1), (3, p, 2), (4, p, 0)]
+        else:
+            for j in range(b):
+                for i in rng.sample(range(a), rng.choice([1, 2])):
+                    es.append((a + j, p, i) if rng.random() < 0.8 else (i, p, a + j))
+        return k, es, a + b
     if k == "functional":
         return k, [(i, P, rng.randrange(n)) for i in range(n)], n
     if k == "random":
@@ -276,6 +301,11 @@ def decorate(rng, es, n):
 def perturb(rng, es, n):
     """near miss: the result may or may not be isomorphic to the input; the oracle decides"""
     es = list(es)
+    tw = [k for k, e in enumerate(es) if isinstance(e[2], tuple) and e[2][1] in SPELL_TWINS]
+    if tw and rng.random() < 0.35:
+        k = rng.choice(tw)  # the same spelling, another term ("x"@en / "x"@fr / "x" / <x>, 0 / "0", <a> / "http://e/a")
+        es[k] = (es[k][0], es[k][1], ("c", rng.choice(SPELL_TWINS[es[k][2][1]])))
+        return es
     bb = [e for e in es if isinstance(e[0], int) and isinstance(e[2], int)]
     r = rng.random()
     if r < 0.45 and len(bb) >= 2:
@@ -388,8 +418,6 @@ class C14(Suite):
     imports = "From RV Require Import Iso.Model."
     case_ty = "case"
     obs_ty = "obs"
-    kf = "kf"                # some triple has a blank-node predicate and the graphs are isomorphic
-    kf_ids = {1: "FC14a"}
     corr = "compare.isomorphic/to_isomorphic/to_canonical_graph/graph_diff, Graph.skolemize/de_skolemize"
     quick_n = 150
     thorough_n = 12000
@@ -418,6 +446,28 @@ class C14(Suite):
 
     def _gen0(self, rng, i):
         r = rng.random()
+        if i % 4 == 1 and i // 4 < len(PWIDE):
+            # the typed-neighbour shape once for every predicate of the wide vocabulary: which colours end with equal
+            # hash sums (and are merged as a "hash collision") depends on the order of the hash values
+            p = PWIDE[i // 4]
+            es = [(0, TYPE, ("c", U0)), (1, TYPE, ("c", U0)), (2, TYPE, ("c", U0)), (3, TYPE, ("c", U1)), (4, TYPE, ("c", U1)),
+                  (3, p, 1), (3, p, 2), (4, p, 0)]
+            p1, p2 = list(range(5)), list(range(20, 25))
+            rng.shuffle(p1)
+            rng.shuffle(p2)
+            return {"g1": realise(rng, es, p1), "g2": realise(rng, es, p2), "fam": "typed_sweep"}
+        if i % 4 == 3 and i // 4 < len(TWIN_PAIRS):
+            # the same small graph with one constant replaced by a DIFFERENT term of the same spelling ("x"@en / "x"@fr /
+            # "x" / <x>, 0 / "0", false / "false", <http://e/a> / "http://e/a"): never isomorphic
+            c, t = TWIN_PAIRS[i // 4]
+            n = rng.choice([1, 2, 3])
+            base = cyc(list(range(n))) if n > 1 else [(0, P, 0)]
+            e1 = base + [(j, Q, ("c", c)) for j in range(n)]
+            e2 = base + [(j, Q, ("c", t if j == 0 or rng.random() < 0.5 else c)) for j in range(n)]
+            p1, p2 = list(range(n)), list(range(20, 20 + n))
+            rng.shuffle(p1)
+            rng.shuffle(p2)
+            return {"g1": realise(rng, e1, p1), "g2": realise(rng, e2, p2), "fam": "spelling_twins"}
         if r < 0.012:
             return self.gen_leak(rng)
         if r < 0.05:
@@ -612,7 +662,7 @@ class C14(Suite):
     def coq_obs(self, o):
         return ("{| o_iso := %s; o_toiso := %s; o_caneq := %s; o_alt1 := %s; o_alt2 := %s; o_cg1 := %s; o_cg2 := %s; "
                 "o_both := %s; o_first := %s; "
-                "o_second := %s; o_sk := %s; o_undet := false; o_skv := %s |}" % (cbool(o["iso"]), cbool(o["toiso"]), cbool(o["caneq"]),
+                "o_second := %s; o_sk := %s; o_skv := %s |}" % (cbool(o["iso"]), cbool(o["toiso"]), cbool(o["caneq"]),
                                                   cbool(o["alt1"]), cbool(o["alt2"]), c_graph(o["cg1"]),
                                                   c_graph(o["cg2"]), c_graph(o["both"]), c_graph(o["first"]),
                                                   c_graph(o["second"]), c_graph(o["sk"]), c_graph(o["skv"])))
@@ -668,6 +718,39 @@ IRI_POOL = [
     "http://e/.well-known/geni", "https://rdflib.github.io/.well-known/other/a", "http://e/a#frag", "http://e/a?q=1",
     "http://e/.well-known/genid", "mailto:a@b", "http://e/.well-known/Genid/rdflib/a",
 ]
+
+
+_BIG = {}
+
+
+def big_external_roundtrip(n=5000):
+    """a chain of n blank nodes, every inner node both object and subject, skolemised under /.well-known/genid/ (the
+    external branch of de_skolemize, one memoised BNode per IRI) and de-skolemised: still one chain of n nodes?
+    Evaluated once per process (the memo is module-level state, so it also runs the memo past any size bound)."""
+    if "ok" not in _BIG:
+        g = Graph()
+        p = CONSTS[2]
+        for i in range(n - 1):
+            g.add((BNode("k%d" % i), p, BNode("k%d" % (i + 1))))
+        try:
+            r = g.skolemize(basepath="/.well-known/genid/").de_skolemize()
+            nxt, has_in = {}, set()
+            ok = len(r) == n - 1
+            for s_, _, o_ in r:
+                ok = ok and isinstance(s_, BNode) and isinstance(o_, BNode) and s_ not in nxt and o_ not in has_in
+                nxt[s_] = o_
+                has_in.add(o_)
+            starts = [x for x in nxt if x not in has_in]
+            ok = ok and len(starts) == 1
+            if ok:
+                cur, seen = starts[0], 1
+                while cur in nxt and seen <= n:
+                    cur, seen = nxt[cur], seen + 1
+                ok = seen == n
+        except Exception:  # noqa: BLE001
+            ok = False
+        _BIG["ok"] = bool(ok)
+    return _BIG["ok"]
 
 
 class C14Skolem(Suite):
@@ -731,10 +814,10 @@ class C14Skolem(Suite):
             rnd = key(back) == key(g)
         except Exception:  # noqa: BLE001
             rnd = False
-        return {"ids": ids_obs, "iris": iris_obs, "round": rnd}
+        return {"ids": ids_obs, "iris": iris_obs, "round": rnd, "big": big_external_roundtrip()}
 
     def on_timeout(self, case):
-        return {"ids": [], "iris": [], "round": False}
+        return {"ids": [], "iris": [], "round": False, "big": False}
 
     def coq_case(self, case):
         return "{| k_ids := " + clist(cstr(i) for i in case["ids"]) + "; k_iris := " + clist(cstr(u) for u in case["iris"]) + " |}"
@@ -743,7 +826,8 @@ class C14Skolem(Suite):
         ids = clist("{| io_join := %s; io_path := %s; io_clean := %s; io_isrd := %s; io_back := %s |}"
                     % (cstr(a), cstr(b), cbool(c), cbool(d), cstr(e)) for a, b, c, d, e in o["ids"])
         iris = clist(ctuple(cbool(a), cbool(b)) for a, b in o["iris"])
-        return "{| ko_ids := %s; ko_iris := %s; ko_round := %s |}" % (ids, iris, cbool(o["round"]))
+        return "{| ko_ids := %s; ko_iris := %s; ko_round := %s; ko_big := %s |}" % (
+            ids, iris, cbool(o["round"]), cbool(o["big"]))
 
     def nontrivial(self, case, obs):
         return len(case["ids"]) >= 1
@@ -932,8 +1016,6 @@ class C14Canon(Suite):
     model = "canon_model"
     oeq = "canon_obs_eqb"
     spec = "canon_spec_ok"
-    kf = "kf"
-    kf_ids = {1: "FC14a"}
     corr = ("compare._TripleCanonicalizer._initial_color/_refine/_traces/_experimental_path/_create_generator/"
             "_is_automorphism/canonical_triples/to_hash, Color.distinguish/hash_color/key, isomorphic, IsomorphicGraph.__eq__")
     quick_n = 40
@@ -979,7 +1061,7 @@ class C14Canon(Suite):
 
     def coq_obs(self, o):
         part = lambda p: clist(clist(c_term(t) for t in cl) for cl in p)  # noqa: E731
-        return "{| q_part1 := %s; q_part2 := %s; q_iso := %s; q_isoeq := %s; q_fail := %s; q_undet := false |}" % (
+        return "{| q_part1 := %s; q_part2 := %s; q_iso := %s; q_isoeq := %s; q_fail := %s |}" % (
             part(o["p1"]), part(o["p2"]), cbool(o["iso"]), cbool(o["isoeq"]), cbool(o["fail"]))
 
     def nontrivial(self, case, obs):
